@@ -37,6 +37,9 @@ def families(tier):
       ('k2d2', 2, 2, allk, LEAVES_SMALL, CKPT_SMALL, BR_SMALL),
       ('k3d1', 3, 1, ['grp', 'sub', 'c'], [{'ret': ['ok']}, {'ret': ['fail_subtest']}, {'ret': ['stop']}], CKPT_SMALL, BR_SMALL),
       ('k3d2sub', 3, 2, ['c', 'sub'], L3, CKPT_SMALL, BR_SMALL),
+      # phases with a (false) run_if that are reached after their subtest has failed: skipped like any other, with a record
+      ('k3d1rif', 3, 1, ['c', 'sub'], [{'ret': ['ok']}, {'ret': ['fail_subtest']}, {'ret': ['ok'], 'opts': {'run_if': 'false'}}],
+       [('last', 'stop'), ('last', 'fs')], BR_SMALL),
   ]
   # teardown contents (checkpoints / branches nested in the teardown of a group), inside and outside a subtest that the
   # group's main (or an earlier node) may already have failed
@@ -75,6 +78,15 @@ def teardown_templates(k, depth):
       yield [['sub', [grp]]]
       yield [['sub', [['p', None], grp]]]
       yield [['sub', [grp, ['p', None]]], ['p', None]]
+  # a subtest as teardown node: inside it the rest of the teardown still runs after a failing node like anywhere in a teardown
+  P = ['p', None]
+  subs = [[['sub', [P, P]]], [['sub', [P]], P], [P, ['sub', [P]]]]
+  if k >= 3:
+    subs += [[['sub', [P, P]], P], [['sub', [P, ['c', None, None]]], P]]
+  for t in subs:
+    grp = ['grp', [], [['p', None]], t]
+    yield [grp]
+    yield [grp, ['p', None]]
 
 
 def strip_calls(calls):
